@@ -19,7 +19,7 @@ PROP = "C19"
 LEVEL = "exploration"
 TECHNIQUE = "deterministic simulation of seeded RNG streams (S-RNG seam) + statistical test of the output history against a uniform-spanning-tree model (tree enumeration, Kirchhoff marginals)"
 ALPHA = 1e-9
-JOB_TIMEOUT = 3000.0
+JOB_TIMEOUT = 900.0
 CHUNK = 1000
 RUNS = {"quick": 0, "thorough": 0}  # sizes are fixed by PLAN below
 PLAN = {
@@ -27,28 +27,31 @@ PLAN = {
         "tree": {(2, 2): 60000, (2, 3): 150000, (3, 2): 150000, (3, 3): 240000},
         "edge": {(4, 4): 20000, (3, 5): 20000, (5, 5): 16000},
         "owned_fraction": 0.25,
+        "history_fraction": 0.25,
     },
     "thorough": {
         "tree": {(2, 2): 400000, (2, 3): 1500000, (3, 2): 1500000, (3, 3): 2400000, (2, 4): 1200000, (4, 2): 1200000},
         "edge": {(4, 4): 200000, (3, 5): 200000, (5, 5): 160000, (6, 6): 100000, (2, 7): 100000, (4, 6): 100000},
         "owned_fraction": 0.25,
+        "history_fraction": 0.25,
     },
 }
 COMPONENTS = {
-    "real": ["LatticeMazeGenerators.gen_wilson", "numpy legacy global RNG (mode 'real', seeded per stream)"],
+    "real": ["LatticeMazeGenerators.gen_wilson", "numpy legacy global RNG (modes 'real' and 'history', seeded per stream)"],
     "stub": ["numpy.random.randint/choice owned by SimRNG with the uniform policy (mode 'owned')"],
 }
 RULE = (
-    "one evaluation = one chunk of gen_wilson draws from one seeded RNG stream; distinct non-trivial = distinct output trees observed "
+    "one evaluation = one chunk of gen_wilson draws from one seeded RNG stream in one process (mode 'history': preceded in that process by seeded calls on other "
+    "grids, the caller re-using one shape array rewritten in place or building a new one per call); distinct non-trivial = distinct output trees observed "
     "over all shapes; tests: every tree appears, chi-square vs equal frequencies (tree level), Hoeffding bound on every Kirchhoff edge marginal"
 )
 LEVEL_TEXT = (
-    "Statistical: outputs of many seeded RNG streams are compared with the exact uniform-spanning-tree model (all trees enumerated on small grids, Kirchhoff edge marginals on larger ones). False-alarm probability fixed at 1e-9 per invocation; biases of a few percent in any tree class or edge marginal are far outside that band at these sample sizes. Evidence, not proof. Quick tier: 60 000 / 150 000 / 240 000 draws on 2x2 / 2x3+3x2 / 3x3 (a +-5 % bias on 2x3 trees is rejected at p ~ 1e-15).",
-    "Trusted: NumPy's legacy global RNG is an adequate uniform source; chi-square tail approximation (expected counts >= 500 per cell); Hoeffding's inequality (exact, conservative).",
+    "Statistical: outputs of many seeded RNG streams are compared with the exact uniform-spanning-tree model (all trees enumerated on small grids, Kirchhoff edge marginals on larger ones). False-alarm probability fixed at 1e-9 per invocation; biases of a few percent in any tree class or edge marginal are far outside that band at these sample sizes. A quarter of the streams start from a process that has already generated other grids (shape array re-used in place by the caller or built anew), and are tested as a group of their own. Evidence, not proof. Quick tier: 60 000 / 150 000 / 240 000 draws on 2x2 / 2x3+3x2 / 3x3 (a +-5 % bias on 2x3 trees is rejected at p ~ 1e-15).",
+    "Trusted: NumPy's legacy global RNG is an adequate uniform source; chi-square tail approximation (expected counts >= 300 per cell); Hoeffding's inequality (exact, conservative).",
 )
 
 
-def _draw_chunk(shape, seed, mode, count):
+def _draw_chunk(shape, seed, mode, count):  # noqa: C901
     from maze_dataset.generation.generators import LatticeMazeGenerators
 
     from mdsim.seams.rng import SimRNG, seed_real
@@ -56,8 +59,27 @@ def _draw_chunk(shape, seed, mode, count):
     seed_real(seed)
     counts: dict = {}
     gs = np.array(shape)
+    if mode == "history":
+        # the process has a past: other grids were generated before the counted draws, by a caller that either builds a
+        # new shape array per call or keeps ONE array and rewrites it in place for every grid (growing and shrinking it)
+        hr = random.Random(core.H("c19-history", seed))
+        shared = hr.random() < 0.7
+        buf = np.array(hr.choice(PRELUDE_SHAPES))
+        for _ in range(hr.randint(1, 3)):
+            sh = hr.choice(PRELUDE_SHAPES)
+            if shared:
+                buf[:] = sh
+                arg = buf
+            else:
+                arg = np.array(sh)
+            with _CountedDraws():
+                for _ in range(hr.randint(1, 3)):
+                    LatticeMazeGenerators.gen_wilson(arg)
+        if shared:
+            buf[:] = shape
+            gs = buf
     if mode == "owned":
-        sim = SimRNG(seed, mode="owned", force_policy="uniform", soft_budget=10**12, hard_budget=10**12)
+        sim = SimRNG(seed, mode="owned", force_policy="uniform", soft_budget=10**12, hard_budget=count * 4000 + WALK_BUDGET)
         sim.draws = _Sink()
         with sim:
             for _ in range(count):
@@ -65,11 +87,52 @@ def _draw_chunk(shape, seed, mode, count):
                 k = m.connection_list.tobytes().hex()
                 counts[k] = counts.get(k, 0) + 1
     else:
-        for _ in range(count):
-            m = LatticeMazeGenerators.gen_wilson(gs)
-            k = m.connection_list.tobytes().hex()
-            counts[k] = counts.get(k, 0) + 1
+        with _CountedDraws() as cd:
+            for _ in range(count):
+                cd.n = 0
+                m = LatticeMazeGenerators.gen_wilson(gs)
+                k = m.connection_list.tobytes().hex()
+                counts[k] = counts.get(k, 0) + 1
     return counts
+
+
+WALK_BUDGET = 200000  # random draws within ONE gen_wilson call on a grid of <= 36 cells; a correct loop-erased walk needs a few
+# hundred, and the probability that it needs 200 000 is below exp(-50): exceeding it means the walk cannot terminate
+
+
+class _CountedDraws:
+    """real RNG, un-owned: the global numpy entry points the generator draws from are wrapped by a counter only, so that a
+    walk that can never reach the tree is a deterministic, replayable verdict instead of a wall-clock timeout"""
+
+    NAMES = ("choice", "randint", "rand", "random", "permutation", "shuffle")
+
+    def __enter__(self):
+        from mdsim.seams.rng import DrawBudgetExceeded
+
+        self.n = 0
+        self._saved = {}
+
+        def wrap(fn):
+            def counted(*a, **kw):
+                self.n += 1
+                if self.n > WALK_BUDGET:
+                    raise DrawBudgetExceeded(f"more than {WALK_BUDGET} random draws inside one gen_wilson call")
+                return fn(*a, **kw)
+
+            return counted
+
+        for name in self.NAMES:
+            self._saved[name] = getattr(np.random, name)
+            setattr(np.random, name, wrap(self._saved[name]))
+        return self
+
+    def __exit__(self, *a):
+        for name, fn in self._saved.items():
+            setattr(np.random, name, fn)
+        return False
+
+
+PRELUDE_SHAPES = [(1, 1), (1, 3), (2, 2), (2, 3), (3, 2), (3, 3), (2, 5), (4, 4), (5, 2)]
 
 
 class _Sink(list):
@@ -127,7 +190,7 @@ def _n_tests(plan):
     edges = 0
     for level in ("tree", "edge"):
         for shape in plan[level]:
-            for _mode in ("real", "owned"):
+            for _mode in ("real", "owned", "history"):
                 groups += 3 if level == "tree" else 0
                 edges += len(ust.lattice_edges(*shape))
     return groups + edges
@@ -136,7 +199,14 @@ def _n_tests(plan):
 def run(spec: dict, ctx) -> dict:
     if "chunk" in spec:
         ch = spec["chunk"]
-        counts = _draw_chunk(ch["shape"], ch["seed"], ch["mode"], ch["count"])
+        try:
+            counts = _draw_chunk(ch["shape"], ch["seed"], ch["mode"], ch["count"])
+        except Exception as e:  # noqa: BLE001 - a generator that raises on a valid array shape does not sample at all
+            log = core.EventLog()
+            log.add("raised", type(e).__name__)
+            if type(e).__name__ == "DrawBudgetExceeded":
+                return core.violation("C19.walk-does-not-terminate", f"gen_wilson{tuple(ch['shape'])} [{ch['mode']}]: {e} (a loop-erased walk on this grid needs a few hundred)", log, spec=spec)
+            return core.violation("C19.generator-raised", f"gen_wilson{tuple(ch['shape'])} [{ch['mode']}] raised {type(e).__name__}: {str(e)[:200]}", log, spec=spec)
         return {"status": "ok", "counts": counts, "digest": core.digest(sorted(counts.items())), "stats": {"draws": ch["count"], "mode_" + ch["mode"]: 1}}
     full = spec["full"]
     counts: dict = {}
@@ -158,7 +228,7 @@ def execute_all(pool, rng: random.Random, tier: str, n: int):
     meta = []
     for level in ("tree", "edge"):
         for shape, total in plan[level].items():
-            for mode, tot in (("real", total), ("owned", int(total * plan["owned_fraction"]))):
+            for mode, tot in (("real", total), ("owned", int(total * plan["owned_fraction"])), ("history", int(total * plan["history_fraction"]))):
                 left = tot
                 while left > 0:
                     cnt = min(CHUNK, left)
